@@ -380,7 +380,7 @@ fn rand_params(src: &mut Src) -> ValidationParams {
 impl Check for C12 {
     fn id(&self) -> &'static str { "C12" }
     fn rule(&self) -> String {
-        "lane `accept`: a typed random miniscript with at most one injected context violation (non-B top level, key kind illegal in the context, wrong (sorted)multisig flavour, or_i / d: in pre-segwit contexts, a lock value of 0 or >= 2^31) offered as text to Miniscript::{from_str, from_str_insane, from_str_with_validation_params(Ctx::CONSENSUS)}, node by node to Miniscript::from_ast, as script to decode / decode_consensus, wrapped into wsh / sh(wsh) / sh / tr descriptors for Descriptor::from_str, and through Descriptor::new_{wsh,sh,sh_wsh,tr} and new_{wsh,sh_wsh,sh}_sortedmulti constructors (1-20 keys of any kind): whatever is accepted must satisfy the mirror's context rules (specification typing, top-level B, key kinds, multisig flavour, conditional fragments, script size, depth) and, for the default parsers, the default sanity predicates; what Descriptor::from_str accepts the miniscript parser with the context's consensus parameters must accept too. lane `switch`: miniscripts parsed with MAX parameters; the public predicates requires_sig / is_non_malleable / has_repeated_keys / contains_raw_pkh / has_mixed_timelocks must equal the mirror's; for each boolean switch, validate() with only that switch restricted must fail with that switch's error iff the mirror predicate finds the defect (key multiset, path-set time-lock analysis, specification type s/m/B, fragment census, key kinds, exhaustive witness search for `unsatisfiable`), and each numeric limit must accept at the script's own figure and at +1 and reject at -1. lane `lattice`: random parameter sets p,q,r: intersect idempotent / commutative / associative / lower bound, entails reflexive / transitive, p.entails(q) => every script p accepts q accepts; Ctx::SANE entails Ctx::CONSENSUS. Non-trivial = accepted inputs with >= 2 nodes, rejected one-violation inputs, (script, switch) pairs where the defect is present.".into()
+        "lane `accept`: a typed random miniscript with at most one injected context violation (non-B top level, key kind illegal in the context, wrong (sorted)multisig flavour, or_i / d: in pre-segwit contexts, a lock value of 0 or >= 2^31) offered as text to Miniscript::{from_str, from_str_insane, from_str_with_validation_params(Ctx::CONSENSUS)}, node by node to Miniscript::from_ast, as script to decode / decode_consensus, wrapped into wsh / sh(wsh) / sh / tr descriptors for Descriptor::from_str, and through Descriptor::new_{wsh,sh,sh_wsh,tr} and new_{wsh,sh_wsh,sh}_sortedmulti constructors (1-20 keys of any kind): whatever is accepted must satisfy the mirror's context rules (specification typing, top-level B, key kinds, multisig flavour, conditional fragments, script size, depth) and, for the default parsers, the default sanity predicates; what Descriptor::from_str accepts the miniscript parser with the context's consensus parameters must accept too. lane `switch`: miniscripts parsed with MAX parameters; the public predicates requires_sig / is_non_malleable / has_repeated_keys / contains_raw_pkh / has_mixed_timelocks must equal the mirror's; for each boolean switch, validate() with only that switch restricted must fail with that switch's error iff the mirror predicate finds the defect (key multiset, path-set time-lock analysis, specification type s/m/B, fragment census, key kinds, exhaustive witness search for `unsatisfiable`), and each numeric limit must accept at the script's own figure and at +1 and reject at -1. the numeric limits of every context's SANE / CONSENSUS parameters are compared with Bitcoin's constants; bare descriptors are additionally held to the standard templates (pk, pkh, multisig with at most 3 keys). lane `lattice`: random parameter sets p,q,r: intersect idempotent / commutative / associative / lower bound, entails reflexive / transitive, p.entails(q) => every script p accepts q accepts; Ctx::SANE entails Ctx::CONSENSUS. Non-trivial = accepted inputs with >= 2 nodes, rejected one-violation inputs, (script, switch) pairs where the defect is present.".into()
     }
     fn lanes(&self, tier: Tier) -> Vec<(&'static str, usize, usize)> {
         match tier {
@@ -389,6 +389,27 @@ impl Check for C12 {
         }
     }
     fn extra(&self, _tier: Tier, st: &mut crate::runner::Stats, _known: &dyn Fn(&str) -> bool, _threads: usize) -> Result<serde_json::Value, Failure> {
+        // the numeric limits of every context against Bitcoin's constants (consensus: 201
+        // opcodes, 10000-byte scripts, 520-byte elements = P2SH redeem scripts, 1000 stack
+        // elements; standardness: 3600-byte P2WSH scripts with 100 witness items)
+        const U: usize = usize::MAX;
+        let table: [(&str, ValidationParams, [usize; 5]); 8] = [
+            ("Bare::SANE", BareCtx::SANE, [201, 10_000, U, U, 402]),
+            ("Bare::CONSENSUS", BareCtx::CONSENSUS, [201, 10_000, U, U, 402]),
+            ("Legacy::SANE", Legacy::SANE, [201, 520, U, U, 402]),
+            ("Legacy::CONSENSUS", Legacy::CONSENSUS, [201, 520, U, U, 402]),
+            ("Segwitv0::SANE", Segwitv0::SANE, [201, 3600, 100, 1000, 402]),
+            ("Segwitv0::CONSENSUS", Segwitv0::CONSENSUS, [201, U, U, 1000, 402]),
+            ("Tap::SANE", Tap::SANE, [U, U, U, 1000, 402]),
+            ("Tap::CONSENSUS", Tap::CONSENSUS, [U, U, U, U, 402]),
+        ];
+        for (name, p, want) in table.iter() {
+            st.evaluations += 1;
+            let got = [p.max_opcode_count, p.max_script_size, p.max_witness_items, p.max_exec_stack_size, p.max_recursive_depth];
+            if &got != want {
+                return fail(&format!("limit-constants/{}", name), format!("{}: (max_opcode_count, max_script_size, max_witness_items, max_exec_stack_size, max_recursive_depth) = {:?}, expected {:?}", name, got, want));
+            }
+        }
         for (name, sane, cons) in [("Bare", BareCtx::SANE, BareCtx::CONSENSUS), ("Legacy", Legacy::SANE, Legacy::CONSENSUS), ("Segwitv0", Segwitv0::SANE, Segwitv0::CONSENSUS), ("Tap", Tap::SANE, Tap::CONSENSUS)] {
             st.evaluations += 1;
             if !sane.entails(&cons) {
@@ -534,8 +555,20 @@ impl Check for C12 {
                     Ctx::Tap => 3 + src.below(2),
                     Ctx::Bare => 9,
                 };
+                // bare descriptors additionally accept only the standard templates: offer
+                // multisigs with 1-6 keys (standard up to 3) next to the random scripts
+                let (node, text) = if wk == 9 && src.chance(1, 2) {
+                    let n = src.range(1, 6);
+                    let k = src.range(1, n);
+                    let ks: Vec<String> = (0..n).map(|i| keys::key_compressed((i + src.below(3)) % 12)).collect();
+                    let nd = if src.chance(1, 4) { Node::SortedMulti(k, ks) } else { Node::Multi(k, ks) };
+                    let t = ast::print(&nd, true);
+                    (nd, t)
+                } else {
+                    (node, text)
+                };
                 let (dtext, dctx) = if wk == 9 { (text.clone(), Ctx::Bare) } else { wrap(wk, &text) };
-                let cv = analysis::context_violation(&node, dctx, true);
+                let cv = analysis::context_violation(&node, dctx, true).or_else(|| if dctx == Ctx::Bare { analysis::bare_template_violation(&node) } else { None });
                 if let Ok(d) = Descriptor::<DK>::from_str(&dtext) {
                     rep.class("accepted:Descriptor::from_str");
                     if let Some(v) = &cv {
